@@ -67,6 +67,17 @@ def record_td(spec):
         poly = np.polyval(rng.uniform(-1, 1, size=order + 1), tt)
         qpoly = float(np.linalg.norm(dsp.polynomial_detrend(poly, order=order))) / (float(np.linalg.norm(poly)) + 1e-300)
         ev.append({"t": "detrend", "order": int(order), "n": n, "qdot": traces.q(qdot, 2 ** 30), "qidem": traces.q(qidem, 2 ** 30), "qpoly": traces.q(qpoly, 2 ** 30)})
+        if spec.get("long") or n >= 400:
+            # the same for single-precision samples (the residual is the float64 residual of exactly these numbers)
+            x32 = x.astype(np.float32)
+            r = np.asarray(dsp.polynomial_detrend(x32, order=order), dtype=float)
+            nx = float(np.linalg.norm(x32.astype(float)))
+            qdot = max(abs(float(r @ tt ** k)) / (nx * float(np.linalg.norm(tt ** k)) + 1e-300) for k in range(order + 1))
+            r2 = np.asarray(dsp.polynomial_detrend(r.astype(np.float32), order=order), dtype=float)
+            qidem = float(np.linalg.norm(r2 - r.astype(np.float32).astype(float))) / (nx + 1e-300)
+            p32 = poly.astype(np.float32)
+            qpoly = float(np.linalg.norm(np.asarray(dsp.polynomial_detrend(p32, order=order), dtype=float))) / (float(np.linalg.norm(poly)) + 1e-300)
+            ev.append({"t": "detrend32", "order": int(order), "n": n, "qdot": traces.q(qdot, 2 ** 30), "qidem": traces.q(qidem, 2 ** 30), "qpoly": traces.q(qpoly, 2 ** 30)})
     for _ in range(spec["nrms"]):
         nf = int(rng.integers(3, 40))
         f = np.cumsum(rng.uniform(0.1, 2.0, size=nf))
@@ -81,6 +92,15 @@ def record_td(spec):
                               "M2": np.zeros(nf), "navg": np.ones(nf, dtype=np.int64)}, {}, False, 1.0)
         sw = float(res.get_rms((b, a)))
         fullband = float(res.get_rms())
+        # bands that differ in the last place only but select different grid points (the lower edge on f[i] / just above it),
+        # asked one after the other on the same result
+        a_up = float(np.nextafter(a, np.inf))
+        b_dn = float(np.nextafter(b, -np.inf))
+        qedge = 0.0
+        for band in ((a, b), (a_up, b), (a, b_dn), (a_up, b_dn), (a, b)):
+            want = float(dsp.integral_rms(f, asd, band))
+            got = float(res.get_rms(band))
+            qedge = max(qedge, abs(got - want) / (abs(want) + 1e-300))
         cres = SpectrumResult({"f": f, "XX": asd, "YY": asd, "XY": asd.astype(complex), "S2": S2, "S12": S2, "M2": S2, "navg": np.ones(nf, dtype=np.int64)}, {}, True, 1.0)
         try:
             cres.get_rms()
@@ -89,7 +109,8 @@ def record_td(spec):
             raises = 1
         ev.append({"t": "rms", "qadd": traces.q(abs(parts - full) / (full + 1e-300), 2 ** 30), "nested": int(inner <= np.sqrt(full) * (1 + 1e-12)),
                    "qswap": traces.q(abs(sw - np.sqrt(full)) / (np.sqrt(full) + 1e-300), 2 ** 30),
-                   "qfull": traces.q(abs(fullband - float(dsp.integral_rms(f, asd))) / (fullband + 1e-300), 2 ** 30), "cross_raises": raises})
+                   "qfull": traces.q(abs(fullband - float(dsp.integral_rms(f, asd))) / (fullband + 1e-300), 2 ** 30), "cross_raises": raises,
+                   "qedge": traces.q(qedge, 2 ** 30)})
     for _ in range(spec.get("nsteep", 0)):
         # steep (1/f^3) ASD over many decades: the band power must be the integral over the in-band points, not a difference of large numbers
         nf = int(rng.integers(30, 80))
